@@ -500,6 +500,11 @@ func (x *Exec) havocHeap(st *State, why string) {
 // The declaration itself is checked package-wide (structural obligation
 // immutable(T.f): no store outside the allocating function).
 func (x *Exec) immutComp(k string) bool {
+	if strings.HasPrefix(k, "GH_") {
+		// ghost state of objects created and owned by the verified package
+		// (hash states): only their own operations change it
+		return true
+	}
 	if x.immutKeys == nil {
 		x.immutKeys = map[string]bool{}
 		for key := range x.cs.Immut {
@@ -628,6 +633,15 @@ func (x *Exec) load(st *State, l *Loc, T types.Type) Val {
 		t := x.heapGet(st, key, x.te.SortOf(T))
 		v := Val{T: t, Typ: T, Org: "global:" + l.Global.Pkg.Pkg.Name() + "." + l.Global.Name()}
 		x.loadFacts(st, v)
+		if gn := l.Global.Name(); t.Sort == "Iface" && !x.L.isRepoPkg(l.Global.Pkg.Pkg) && x.L.immutableGlobal[key] &&
+			(gn == "EOF" || strings.HasPrefix(gn, "Err") || gn == "Canceled" || gn == "DeadlineExceeded") {
+			// a sentinel error of the standard library: a non-nil value made
+			// once at start-up (so different from any error made later)
+			st.assume(Not(Eq(t, NilIface)))
+			x.d.DeclareFun("top0", "(declare-const top0 Int)")
+			st.assume(Term{fmt.Sprintf("(<= (ival %s) top0)", t.S), "Bool"})
+			x.funcsUsed["struct:standard-library sentinel "+l.Global.Pkg.Pkg.Name()+"."+gn+" is a non-nil error created at start-up and never reassigned"] = true
+		}
 		if tbl, ok := x.L.funcTables[key]; ok && x.L.immutableGlobal[key] {
 			v.Org = "table:" + key
 			n := IntLit(int64(len(tbl)))
